@@ -29,7 +29,7 @@ EXPLANATION = (
     'mark of every yielded fragment is decided by exhaustion of the byte counters (cumulative read == total), never '
     'by the size of a read, and nothing is yielded after a fragment marked last. Not decided: exact reassembly of '
     'arbitrary byte strings (a value property).')
-EXPLANATION_ADDED = ("(g) the fragment generator on every enumerated path: every read is counted (counters start at 0) before the next read or yield, every byte read is yielded once in its own field unless the read is known empty, exactly the first fragment is marked first and the mark is cleared after every yield, at least one fragment per frame, the generator ends only with both fields known exhausted, a fragment is marked last only when the field its mark does not test is known exhausted; (h) data_to_fragments_if_required yields the whole payload as one fragment without a size and passes on every fragment of a FrameFragmenter built from the same arguments with one; reassembly: a non-final fragment stores the builder's result under its stream id, a final one returns the builder's result and pops the entry, arriving content is appended field to field after the cached content.")
+EXPLANATION_ADDED = ("(g) the fragment generator on every enumerated path: every read is counted (counters start at 0) before the next read or yield, every byte read is yielded once in its own field unless the read is known empty, exactly the first fragment is marked first and the mark is cleared after every yield, at least one fragment per frame, the generator ends only with both fields known exhausted, a fragment is marked last only when the field its mark does not test is known exhausted; (h) data_to_fragments_if_required yields the whole payload as one fragment without a size and passes on every fragment of a FrameFragmenter built from the same arguments with one; reassembly: a non-final fragment stores the builder's result under its stream id, a final one returns the builder's result and pops the entry, arriving content is appended field to field after the cached content. (i) the framing mode reaches the size accounting: every caller of get_next_fragment asks the transport it writes to, and get_next_fragment hands that answer with the frame's data, metadata, header length and fragment size to the fragmenter (arguments bound against the signature, positional or keyword).")
 EXPLANATION = EXPLANATION.replace(' Not decided', ' ' + EXPLANATION_ADDED + ' Not decided', 1) \
     if ' Not decided' in EXPLANATION else EXPLANATION + ' ' + EXPLANATION_ADDED
 ASSUMPTIONS = COMMON_ASSUMPTIONS + ['io.BytesIO.read(n) returns at most n bytes, consecutively, and b"" only at the end']
@@ -1150,5 +1150,94 @@ def rule_h(ctx):
                                                             'element yielded (%d paths)' % n_iter)
 
 
+def _bind_call(call, callee_node, implicit_self=False):
+    """{parameter name: argument expression} for one call against one signature (positional, keyword)"""
+    a = callee_node.args
+    names = [x.arg for x in a.posonlyargs + a.args]
+    if implicit_self and names:
+        names = names[1:]
+    bound = {}
+    for name, arg in zip(names, call.args):
+        bound[name] = arg
+    for k in call.keywords:
+        if k.arg is not None:
+            bound[k.arg] = k.value
+    return bound
+
+
+def rule_i(ctx):
+    """The framing mode of the transport in use reaches the size accounting: the sender asks the transport it writes
+    to (`requires_length_header()`) at every `get_next_fragment` call, `get_next_fragment` hands that answer - and the
+    frame's own data, metadata, header length and fragment size - to `data_to_fragments_if_required` (C03.h follows it
+    from there into FrameFragmenter).  A dropped argument falls back to the 'length prefix' default and makes every
+    message transport fragment 3 bytes early."""
+    rep = ctx.report
+    repo = ctx.repo
+    mixin = repo.cls('rsocket.frame:FrameFragmentMixin')
+    g = mixin.lookup('get_next_fragment')
+    helper = repo.func('rsocket.frame_fragmenter:data_to_fragments_if_required')
+    if g is None:
+        raise AnalysisError('C03.i: FrameFragmentMixin.get_next_fragment vanished')
+    gparams = [x.arg for x in g.node.args.args][1:]
+    if len(gparams) != 1:
+        raise AnalysisError('C03.i: get_next_fragment has %d parameters, one (the framing mode) expected' % len(gparams))
+    mode = gparams[0]
+    calls = [n for n in walk_local(g.node) if isinstance(n, ast.Call) and isinstance(n.func, ast.Name) and
+             n.func.id == helper.node.name]
+    if len(calls) != 1:
+        raise AnalysisError('C03.i: %d calls of %s in get_next_fragment' % (len(calls), helper.node.name))
+    hp = [x.arg for x in helper.node.args.args]
+    if len(hp) != 5:
+        raise AnalysisError('C03.i: %s has %d parameters, five confirmed by hand' % (helper.node.name, len(hp)))
+    bound = _bind_call(calls[0], helper.node)
+    # expected value per parameter, by the role C03.h gives the parameter
+    expect = {hp[0]: 'self.data', hp[1]: 'self.metadata', hp[2]: 'get_header_length(self)',
+              hp[3]: 'self.fragment_size_bytes', hp[4]: mode}
+    ok, detail = True, ''
+    for pname, want in expect.items():
+        got = bound.get(pname)
+        if got is None:
+            ok, detail = False, '%s is not passed (its default is used whatever the transport says)' % pname
+            break
+        text = ast.unparse(got)
+        # a single-assignment temporary is read through
+        if isinstance(got, ast.Name) and got.id != mode:
+            assigns = [n for n in walk_local(g.node) if isinstance(n, ast.Assign) and len(n.targets) == 1 and
+                       isinstance(n.targets[0], ast.Name) and n.targets[0].id == got.id]
+            if len(assigns) == 1:
+                text = ast.unparse(assigns[0].value)
+        if text != want:
+            ok, detail = False, '%s receives %s, expected %s' % (pname, text, want)
+            break
+    rep.add('C03.i', 'FrameFragmentMixin.get_next_fragment / frame fields and framing mode handed to the fragmenter', g,
+            ok, detail or '%s(%s)' % (helper.node.name, ', '.join('%s=%s' % kv for kv in expect.items())))
+    # every caller asks the transport
+    n_calls = 0
+    bad = []
+    for fn in repo.all_functions():
+        if not fn.qualname.startswith('rsocket'):
+            continue
+        for n in walk_local(fn.node):
+            if isinstance(n, ast.Call) and isinstance(n.func, ast.Attribute) and n.func.attr == g.node.name:
+                n_calls += 1
+                b = _bind_call(n, g.node, implicit_self=True)
+                a = b.get(mode)
+                asks = isinstance(a, ast.Call) and isinstance(a.func, ast.Attribute) and \
+                    a.func.attr == 'requires_length_header' and not a.args
+                if isinstance(a, ast.Name):
+                    assigns = [x for x in walk_local(fn.node) if isinstance(x, ast.Assign) and len(x.targets) == 1 and
+                               isinstance(x.targets[0], ast.Name) and x.targets[0].id == a.id]
+                    asks = len(assigns) == 1 and isinstance(assigns[0].value, ast.Call) and \
+                        isinstance(assigns[0].value.func, ast.Attribute) and \
+                        assigns[0].value.func.attr == 'requires_length_header'
+                if not asks:
+                    bad.append('%s line %d passes %s' % (fn.short, n.lineno, ast.unparse(a) if a is not None else
+                                                         'nothing'))
+    if n_calls < 2:
+        raise AnalysisError('C03.i: %d callers of get_next_fragment, two confirmed by hand' % n_calls)
+    rep.add('C03.i', 'callers of get_next_fragment / the transport written to is asked for its framing mode', g,
+            not bad, '; '.join(bad) if bad else 'all %d calls pass <transport>.requires_length_header()' % n_calls)
+
+
 RULES = [('C03.a', rule_a), ('C03.b', rule_b), ('C03.c', rule_c), ('C03.d', rule_d), ('C03.e', rule_e),
-         ('C03.f', rule_f), ('C03.g', rule_g), ('C03.h', rule_h)]
+         ('C03.f', rule_f), ('C03.g', rule_g), ('C03.h', rule_h), ('C03.i', rule_i)]
